@@ -37,7 +37,8 @@ class SetupCfgWriter(DependencyWriter):
             logger.debug("Unable to add dependencies to setup.cfg file.")
             return None
 
-        with open(self.path, "r", encoding="utf-8") as f:
+        # newline="": do not translate line endings, the diff must match the file
+        with open(self.path, "r", encoding="utf-8", newline="") as f:
             original_lines = f.readlines()
 
         if not (
@@ -50,7 +51,7 @@ class SetupCfgWriter(DependencyWriter):
 
         if not dry_run:
             try:
-                with open(self.path, "w", encoding="utf-8") as f:
+                with open(self.path, "w", encoding="utf-8", newline="") as f:
                     f.writelines(new_lines)
             except Exception:
                 logger.debug("Unable to add dependencies to setup.cfg file.")
@@ -78,10 +79,12 @@ class SetupCfgWriter(DependencyWriter):
         the output newline manually.
         """
         clean_lines = [s.strip() for s in original_lines]
+        # the file keeps its own line ending
+        eol = "\r\n" if original_lines and original_lines[0].endswith("\r\n") else "\n"
 
         if newline_separated := len(defined_dependencies.split("\n")) > 1:
             last_dep_line = defined_dependencies.split("\n")[-1]
-            dep_sep = "\n"
+            dep_sep = eol
         else:
             # deps are in same line as install_requires key separated by commas
             last_dep_line = [
@@ -101,8 +104,13 @@ class SetupCfgWriter(DependencyWriter):
             new_deps = [
                 f"{formatting}{dep.requirement}{dep_sep}" for dep in dependencies_to_add
             ]
+            last_dep = original_lines[last_dep_idx]
+            if not last_dep.endswith(("\n", "\r")):
+                # the file ends without a newline right after the last requirement
+                last_dep += eol
             new_lines = (
-                original_lines[: last_dep_idx + 1]
+                original_lines[:last_dep_idx]
+                + [last_dep]
                 + new_deps
                 + original_lines[last_dep_idx + 1 :]
             )
@@ -111,7 +119,7 @@ class SetupCfgWriter(DependencyWriter):
             new_dep = ",".join(
                 [f"{dep.requirement}{dep_sep}" for dep in dependencies_to_add]
             )
-            new_dep_line = f"{original_lines[last_dep_idx].rstrip()}, {new_dep}\n"
+            new_dep_line = f"{original_lines[last_dep_idx].rstrip()}, {new_dep}{eol}"
             new_lines = (
                 original_lines[:last_dep_idx]
                 + [new_dep_line]
